@@ -49,7 +49,9 @@ Range(s) == { s[i] : i \in 1..Len(s) }
 GOps == [compose |-> <<"G", "G">>, inverse |-> <<"G">>, between |-> <<"G", "G">>, rplus |-> <<"G", "T">>,
          lplus |-> <<"G", "T">>, exp |-> <<"T">>, assign |-> <<"G">>, moveassign |-> <<"G">>, pluseq |-> <<"D", "T">>,
          timeseq |-> <<"D", "G">>, normalize |-> <<"D">>, setIdentity |-> <<>>, setRandom |-> <<>>,
-         setcoeff |-> <<>>]      \* a write through the coefficient accessor (coeffs()(i) = v): only the frame matters
+         setcoeff |-> <<>>,      \* a write through the coefficient accessor (coeffs()(i) = v): only the frame matters
+         renormalize |-> <<>>]   \* normalize() of a destination whose rotation coefficients were scaled far from unit norm first:
+                                 \* whatever the value, it is written into the destination's own RepSize scalars and nowhere else
 TOps == [log |-> <<"G">>, rminus |-> <<"G", "G">>, lminus |-> <<"G", "G">>, tassign |-> <<"T">>, tmoveassign |-> <<"T">>,
          tsetZero |-> <<>>, tsetRandom |-> <<>>, tneg |-> <<"T">>]
 \* observers: operations whose result is a vector / matrix / scalar and that write no location
@@ -59,7 +61,7 @@ NJac == [act |-> 2, compose |-> 2, inverse |-> 1, between |-> 2, rplus |-> 2, lp
          rminus |-> 2, lminus |-> 2]
 Masks(op) == IF op \in DOMAIN NJac THEN (IF Small THEN {0, IF NJac[op] = 2 THEN 2 ELSE 1}
                                          ELSE 0..(IF NJac[op] = 2 THEN 3 ELSE 1)) ELSE {0}
-Fresh(op) == op \in {"setRandom", "tsetRandom", "setcoeff"}          \* the only operations that are not functions
+Fresh(op) == op \in {"setRandom", "tsetRandom", "setcoeff", "renormalize"}          \* the only operations that are not functions
 
 VARIABLES gval,    \* group location -> value identifier
           tval,    \* tangent location -> value identifier
